@@ -452,11 +452,15 @@ def key_of(style, i, perm=None):
         return ("x", j)
     if style == "tuple2":
         return ("x", j // 2, j % 2)
+    if style == "odd":
+        # the less usual legal key types (dask.typing.Key = str | int | float | tuple of keys; bytes is not a key type):
+        # floats and tuples holding a float
+        return (j + 0.5) if j % 2 == 0 else ("x", j, 0.5)
     # mixed
     return ("x", j) if j % 3 == 0 else ("k%d" % j if j % 3 == 1 else 100 + j)
 
 
-KEY_STYLES = ("str", "int", "tuple", "tuple2", "mixed")
+KEY_STYLES = ("str", "int", "tuple", "tuple2", "mixed", "odd")
 
 # literal pool disjoint from every key style above (ints < 100 collide with "int" keys on purpose only via key-like literals)
 LITS = ["a", "zz", 1000, 2000.5, None, True, ("t", "u"), [1000, "a"], {"q": 1000}, "", 0.0 - 0.0]
